@@ -192,6 +192,10 @@ set_prolog_flag(bounded, false) :- !. % 7.11.1.1
 set_prolog_flag(bounded, true)  :- !, '$fail'. % 7.11.1.1
 set_prolog_flag(bounded, Value) :-
     throw(error(domain_error(flag_value, bounded + Value), set_prolog_flag/2)). % 8.17.1.3 e
+set_prolog_flag(max_arity, 255) :- !. % 7.11.2.3
+set_prolog_flag(max_arity, Value) :- integer(Value), !, '$fail'. % 7.11.2.3
+set_prolog_flag(max_arity, Value) :-
+    throw(error(domain_error(flag_value, max_arity + Value), set_prolog_flag/2)). % 8.17.1.3 e
 set_prolog_flag(max_integer, Value) :- integer(Value), !, '$fail'. % 7.11.1.2
 set_prolog_flag(max_integer, Value) :-
     throw(error(domain_error(flag_value, max_integer + Value), set_prolog_flag/2)). % 8.17.1.3 e
